@@ -691,6 +691,25 @@ impl<'a, 'tcx> Visitor<'tcx> for BV<'a, 'tcx> {
                         }
                     }
                 }
+                // `Some(<constant>)` / `Ok(<constant>)` of the standard library's Option / Result (`Some(false)`: a decided answer)
+                if let Rvalue::Aggregate(kind, ops) = rv {
+                    if let AggregateKind::Adt(did, vidx, _, _, _) = &**kind {
+                        if !interesting_crate(self.tcx, *did) && ops.len() == 1 {
+                            let adt = self.tcx.adt_def(*did);
+                            let an = self.tcx.item_name(*did).to_string();
+                            if adt.is_enum() && (an == "Option" || an == "Result") {
+                                if let Some(Operand::Constant(_)) = ops.iter().next() {
+                                    let inner = self.operand_str(ops.iter().next().unwrap());
+                                    if inner.starts_with("const:") {
+                                        let v = format!("wrapped:{}::{}({})", an, adt.variant(*vidx).name, inner);
+                                        let s = format!("[\"kv\",\"_{}\",{}]", place.local.as_usize(), esc(&v));
+                                        self.push(loc.block, s);
+                                    }
+                                }
+                            }
+                        }
+                    }
+                }
                 // which local holds a closure value (to connect captured variables, `mv _N.k`, with the closure body's upvars)
                 if let Rvalue::Aggregate(kind, _) = rv {
                     if let AggregateKind::Closure(did, _) = &**kind {
